@@ -43,7 +43,8 @@ def adjacent(p, q):
 @register
 class LbfH(Harness):
     ENV = "LevelBasedForaging"
-    QUICK = ["LevelBasedForaging@5x2x1", "LevelBasedForaging@6x2x2"]
+    # 5x3x1: THREE agents (chained collisions - A steps onto B's cell while B collides with C - need three) and num_agents != num_food
+    QUICK = ["LevelBasedForaging@5x2x1", "LevelBasedForaging@6x2x2", "LevelBasedForaging@5x3x1"]
     THOROUGH = ["LevelBasedForaging@7x3x2"]
     INVALID = "ignore"
     TIME_LIMIT = True
